@@ -20,12 +20,14 @@
      num_pin                  Model/Num.num                        = SectionParser.num (np.int64 / np.float64 / np.isfinite
                                                                       are operations of num_ops, read by num_hval_ops)
      curves_pin, params_pin, metadata_pin   SectionParse.build_item = SectionParser.curves / params / metadata
+     parser_init_pin, parser_call_pin   kind_of_title / parser_entry = SectionParser.__init__; the parser it builds,
+                                                                      applied to a line, is build_item
      header_fields_pin        HeaderLine.read_header_line's use of the groups = the m.groupdict() loop of read_header_line
      json_value_pin, json_sample_pin   Export.json_of_value / json_of_sample = las._json_value + json's own dispatch
      section_contains_pin, section_getitem_pin   Items.contains / getitem (str key) = SectionItems.__contains__ / __getitem__
 
    One file per pinned function or group (FuncsPinConfigure, FuncsPinSectionType, FuncsPinRoute,
-   FuncsPinSectionParse, FuncsPinItems, FuncsPinStandardize, FuncsPinWriter, FuncsPinNum, FuncsPinParser,
+   FuncsPinSectionParse, FuncsPinItems, FuncsPinStandardize, FuncsPinWriter, FuncsPinNum, FuncsPinParser, FuncsPinParserInit,
    FuncsPinHeaderLine, FuncsPinJson, FuncsPinSection; shared lemmas in FuncsPinsLib), so
    that a property depends only on the pins of the functions it relies on; this file
    re-exports them all.
@@ -33,6 +35,7 @@
    What the generated side means is fixed by the prelude of Gen/Funcs.v (pyo_find, pyo_slice,
    pyo_item, ... : Python's find / slicing / indexing rules over code-point lists). *)
 Require Export FuncsPinsLib FuncsPinConfigure FuncsPinSectionType FuncsPinSectionParse FuncsPinItems
-  FuncsPinStandardize FuncsPinRoute FuncsPinWriter FuncsPinNum FuncsPinParser FuncsPinHeaderLine FuncsPinJson.
+  FuncsPinStandardize FuncsPinRoute FuncsPinWriter FuncsPinNum FuncsPinParser FuncsPinParserInit FuncsPinHeaderLine
+  FuncsPinJson.
 (* FuncsPinSection is not re-exported here: Model/Items.v and Funcs.v both have fields named it_unit / it_value /
    it_descr; import it on its own. *)
